@@ -203,6 +203,8 @@ def main(argv=None):
                 return 1
             print("replay: violation not reproduced on this tree")
             return 0
+        import shutil
+        shutil.rmtree(os.path.join(REPLAYS, prop), ignore_errors=True)   # replay files of earlier runs would be stale
         cases = mod.cases(tier, seed)
         res = mod.execute(cases, tier, seed)
         n = report(prop, res.violations)
